@@ -452,11 +452,23 @@ def byteArrayValues (data : List UInt8) : List Nat → List (List UInt8)
   | [] => []            -- (Go: offsets[0] panics; pages always carry at least one offset)
   | o :: os => slices data o os
 
-/-- WRITE SIDE. MIRROR `splitBlockEncoding.Encode*`, bloom.go:249-368: the hashes inserted for one
-    page, in order. The 128-entry staging buffer of `splitBlockEncodeUint*` is not modelled
-    (`MultiSum64UintN` over consecutive chunks = `map`). -/
+def hashBool (b : Bool) : UInt64 := sum64Uint8 (if b then 1 else 0)
+
+/-- MIRROR `splitBlockEncoding.EncodeBoolean` as repaired (fix 3b0d378), bloom.go:253-268: `src` is
+    bit-packed; hash(0) is inserted when some byte has a 0 bit (`b != 0xFF`), hash(1) when some byte
+    has a 1 bit (`b != 0x00`), in this order. -/
+def encodeBooleanHashes (bits : List UInt8) : List UInt64 :=
+  (if bits.any (· != 0xFF) then [hashBool false] else []) ++
+  (if bits.any (· != 0x00) then [hashBool true] else [])
+
+/-- `EncodeBoolean` BEFORE the fix (finding F3): the packed bytes themselves were hashed. -/
+def encodeBooleanHashesBeforeFix (bits : List UInt8) : List UInt64 := multiSum64Uint8 bits.length bits
+
+/-- WRITE SIDE, value level. `splitBlockEncoding.Encode*`, bloom.go:253-395, with the 128-entry
+    staging buffers flattened (`hashWriteStaged` below is the loop-level mirror, proved equal):
+    the hashes inserted for one page, in order. -/
 def hashWrite : PageData → List UInt64
-  | .boolean bits => multiSum64Uint8 bits.length bits           -- EncodeBoolean: hashes the PACKED bytes
+  | .boolean bits => encodeBooleanHashes bits
   | .int32 vs | .float vs => multiSum64Uint32 vs.length vs
   | .int64 vs | .double vs => multiSum64Uint64 vs.length vs
   | .int96 data => (chunks 12 data).map xxh64
@@ -464,6 +476,90 @@ def hashWrite : PageData → List UInt64
   | .flba data size =>
     if size = 16 then multiSum64Uint128 (chunks 16 data).length (chunks 16 data)
     else (chunks size data).map xxh64
+
+/-- the write side as it was before fix 3b0d378 (only the boolean case differs) -/
+def hashWriteBeforeFix : PageData → List UInt64
+  | .boolean bits => encodeBooleanHashesBeforeFix bits
+  | pd => hashWrite pd
+
+/-! ### the staging buffers of the write side (loop-level MIRROR) -/
+
+/-- MIRROR `splitBlockEncodeUint8/32/64/128`, bloom.go:355-395:
+    `buffer := make([]uint64, 128); for i := 0; i < len(values); { n := MultiSum64(buffer, values[i:]); InsertBulk(buffer[:n]); i += n }`.
+    Fuel = iterations allowed (`len(values)` suffices: every iteration consumes ≥ 1 value). -/
+def stagedFuel {α} (sum : α → UInt64) : Nat → List α → List UInt64
+  | 0, _ => []
+  | fuel + 1, values =>
+    if values.isEmpty then []
+    else
+      let hs := multiSum64 sum 128 values
+      hs ++ stagedFuel sum fuel (values.drop hs.length)
+
+def staged {α} (sum : α → UInt64) (values : List α) : List UInt64 := stagedFuel sum values.length values
+
+/-- MIRROR of the append-style staging of `EncodeByteArray` / `splitBlockEncodeFixedLenByteArray`,
+    bloom.go:283-300, 311-324: `buffer := make([]uint64, 0, 128)`; when full, `InsertBulk` and
+    reset; append the hash; final `InsertBulk(buffer)`. State = (inserted so far, buffer). -/
+def stagedAppendStep {α} (f : α → UInt64) (st : List UInt64 × List UInt64) (v : α) : List UInt64 × List UInt64 :=
+  if st.2.length = 128 then (st.1 ++ st.2, [f v]) else (st.1, st.2 ++ [f v])
+
+def stagedAppend {α} (f : α → UInt64) (vs : List α) : List UInt64 :=
+  let st := vs.foldl (stagedAppendStep f) ([], [])
+  st.1 ++ st.2
+
+/-- WRITE SIDE, loop level: `hashWrite` with the staging buffers in place. -/
+def hashWriteStaged : PageData → List UInt64
+  | .boolean bits => encodeBooleanHashes bits
+  | .int32 vs | .float vs => staged sum64Uint32 vs
+  | .int64 vs | .double vs => staged sum64Uint64 vs
+  | .int96 data => stagedAppend xxh64 (chunks 12 data)
+  | .byteArray data offsets => stagedAppend xxh64 (byteArrayValues data offsets)
+  | .flba data size =>
+    if size = 16 then staged sum64Uint128 (chunks 16 data)
+    else stagedAppend xxh64 (chunks size data)
+
+theorem stagedFuel_eq_map {α} (sum : α → UInt64) :
+    ∀ (fuel : Nat) (values : List α), values.length ≤ fuel → stagedFuel sum fuel values = values.map sum
+  | 0, values, h => by
+    have : values = [] := List.eq_nil_of_length_eq_zero (by omega)
+    subst this; rfl
+  | fuel + 1, values, h => by
+    unfold stagedFuel
+    cases values with
+    | nil => rfl
+    | cons v vs =>
+      simp only [List.isEmpty_cons, Bool.false_eq_true, if_false]
+      have hl : (multiSum64 sum 128 (v :: vs)).length = min 128 (v :: vs).length := by
+        simp only [multiSum64, List.length_map, List.length_take]
+      rw [hl, stagedFuel_eq_map sum fuel _ (by simp only [List.length_drop, List.length_cons] at h ⊢; omega)]
+      unfold multiSum64
+      rw [← List.map_append]
+      congr 1
+      have : List.take 128 (v :: vs) = List.take (min 128 (v :: vs).length) (v :: vs) := by
+        rw [List.take_eq_take_min]
+      rw [this, List.take_append_drop]
+
+theorem staged_eq_map {α} (sum : α → UInt64) (values : List α) : staged sum values = values.map sum :=
+  stagedFuel_eq_map sum _ values (Nat.le_refl _)
+
+theorem stagedAppend_fold {α} (f : α → UInt64) : ∀ (vs : List α) (st : List UInt64 × List UInt64),
+    (vs.foldl (stagedAppendStep f) st).1 ++ (vs.foldl (stagedAppendStep f) st).2 = st.1 ++ st.2 ++ vs.map f
+  | [], st => by simp
+  | v :: vs, st => by
+    simp only [List.foldl_cons, List.map_cons]
+    rw [stagedAppend_fold f vs]
+    unfold stagedAppendStep
+    split <;> simp [List.append_assoc]
+
+theorem stagedAppend_eq_map {α} (f : α → UInt64) (vs : List α) : stagedAppend f vs = vs.map f := by
+  unfold stagedAppend
+  simpa using stagedAppend_fold f vs ([], [])
+
+/-- the staging buffers do not change which hashes are inserted, nor their order -/
+theorem hashWriteStaged_eq (pd : PageData) : hashWriteStaged pd = hashWrite pd := by
+  cases pd <;>
+    simp only [hashWriteStaged, hashWrite, staged_eq_map, stagedAppend_eq_map, multiSum64Uint32,
+      multiSum64Uint64, multiSum64Uint128, multiSum64, List.take_length]
 
 /-! ### how the values of a column chunk reach `Page.Data()` -/
 
@@ -497,23 +593,12 @@ def pageData : Kind → List Value → PageData
   | .byteArray, vs => .byteArray (vs.flatMap Value.payloadBytes) (offsetsFrom 0 (vs.map Value.payloadBytes))
   | .flba n, vs => .flba (vs.flatMap Value.payloadBytes) n
 
-/-! ### repaired boolean write side (proposed fix of F3) -/
+/-! ### boolean write side: the packed bits carry every written value -/
 
 def byteBits (b : UInt8) : List Bool := (List.range 8).map (fun i => (b.toNat >>> i) % 2 == 1)
 
-/-- all 8 bits of every packed byte, LSB first (padding bits of the last byte included: the
-    `EncodeBoolean(dst, src []byte)` interface does not carry the value count) -/
+/-- all 8 bits of every packed byte, LSB first (padding bits of the last byte included) -/
 def unpackAll (bits : List UInt8) : List Bool := bits.flatMap byteBits
-
-def hashBool (b : Bool) : UInt64 := sum64Uint8 (if b then 1 else 0)
-
-/-- REPAIRED `EncodeBoolean`: unpack the bits, hash one 0/1 byte per bit (what `Value.hash` does). -/
-def hashWriteBoolFixed (bits : List UInt8) : List UInt64 := (unpackAll bits).map hashBool
-
-/-- the whole write side with the boolean case repaired (all other kinds as they are) -/
-def hashWriteRepaired : PageData → List UInt64
-  | .boolean bits => hashWriteBoolFixed bits
-  | pd => hashWrite pd
 
 theorem byteBits_pack8 : ∀ (b0 b1 b2 b3 b4 b5 b6 b7 : Bool),
     byteBits (UInt8.ofNat (bitsByte [b0, b1, b2, b3, b4, b5, b6, b7])) = [b0, b1, b2, b3, b4, b5, b6, b7] := by
@@ -536,6 +621,31 @@ theorem unpack_pack : ∀ (bs : List Bool), (unpackAll (packBits bs)).take bs.le
       simp only [List.length_cons, List.length_nil]; omega
     rw [e, List.take_length_add_append, ih]
     rfl
+
+theorem true_mem_byteBits (byte : UInt8) (h : true ∈ byteBits byte) : byte ≠ 0x00 := by
+  intro he; subst he; revert h; decide
+
+theorem false_mem_byteBits (byte : UInt8) (h : false ∈ byteBits byte) : byte ≠ 0xFF := by
+  intro he; subst he; revert h; decide
+
+/-- the repaired `EncodeBoolean` inserts the read-side hash of every boolean packed into the page -/
+theorem encodeBoolean_covers (bs : List Bool) (b : Bool) (hm : b ∈ bs) :
+    hashBool b ∈ encodeBooleanHashes (packBits bs) := by
+  have hp : b ∈ unpackAll (packBits bs) := by
+    have := unpack_pack bs
+    rw [← this] at hm
+    exact List.mem_of_mem_take hm
+  rcases List.mem_flatMap.mp hp with ⟨byte, hbyte, hb⟩
+  unfold encodeBooleanHashes
+  cases b with
+  | false =>
+    have : (packBits bs).any (· != 0xFF) = true :=
+      List.any_eq_true.mpr ⟨byte, hbyte, by simpa using false_mem_byteBits byte hb⟩
+    simp [this]
+  | true =>
+    have : (packBits bs).any (· != 0x00) = true :=
+      List.any_eq_true.mpr ⟨byte, hbyte, by simpa using true_mem_byteBits byte hb⟩
+    simp [this]
 
 /-! ### the flat page buffers give the values back -/
 
